@@ -955,6 +955,9 @@ shift(bitint383_t cand[static 3U], const unsigned int y, echs_shift_t sh)
 }
 
 
+/* last year of the supported range, leap years are y % 4 == 0 */
+#define MAX_YEAR	(2099U)
+
 size_t
 rrul_fill_yly(echs_instant_t *restrict tgt, size_t nti, rrulsp_t rr)
 {
@@ -1035,6 +1038,11 @@ rrul_fill_yly(echs_instant_t *restrict tgt, size_t nti, rrulsp_t rr)
 	for (res = 0UL, tries = 64U; res < nti && --tries; y += rr->inter) {
 		bitint383_t cand[3U] = {0U};
 		int yd;
+
+		if (UNLIKELY(y > MAX_YEAR)) {
+			/* beyond the supported range */
+			break;
+		}
 
 		/* stick to note 2 on page 44, RFC 5545 */
 		if (wd_mask && (nd || bi383_has_bits_p(&rr->doy))) {
@@ -1236,6 +1244,11 @@ rrul_fill_mly(echs_instant_t *restrict tgt, size_t nti, rrulsp_t rr)
 	     })) {
 		bitint383_t cand[3U] = {0U};
 		int yd;
+
+		if (UNLIKELY(y > MAX_YEAR)) {
+			/* beyond the supported range */
+			break;
+		}
 
 		/* stick to note 1 on page 44, RFC 5545 */
 		if (wd_mask && nd) {
